@@ -148,7 +148,7 @@ def real_all(c):
         os_ = [{k: np.asarray(v) for k, v in f(v0, random.PRNGKey(key)).items()} for key in c["keys"]]
         o = os_[0]
         return dict(z1=o["z1"], rt=o["rt"], neg=o["neg"], det1=float(np.linalg.det(o["J1"])),
-                    detn=float(np.linalg.det(o["Jn"])), e0=float(o["e0"]), e1=float(o["e1"]),
+                    detn=float(np.linalg.det(o["Jn"])), jn_norm=float(np.linalg.norm(o["Jn"], 2)), j1_norm=float(np.linalg.norm(o["J1"], 2)), e0=float(o["e0"]), e1=float(o["e1"]),
                     mom_factor=np.asarray(mom) / np.asarray(xi), kin_grad=np.asarray(kg), kin_grad_ref=np.asarray(kg_ref),
                     draws=[dict(accepted=bool(o["accepted"]), acc=o["acc"], rej=o["rej"], u=float(o["u"])) for o in os_])
     return safe(go)
@@ -182,14 +182,16 @@ def oracle(case):
     z0 = np.array(fll(case["q"]) + fll(case["p"]))
     d = case["d"]
     scale = max(1.0, float(np.max(np.abs(r["z1"]))), float(np.max(np.abs(z0))))
-    if not np.max(np.abs(r["rt"] - z0)) <= 1e-10 * scale:
+    amp = max(1.0, r["jn_norm"])        # error amplification of an (unstable, large-step) trajectory
+    if not np.max(np.abs(r["rt"] - z0)) <= 1e-10 * scale * amp:
         return (f"leapfrog is not time-reversible: forward–flip–forward–flip misses the start by "
                 f"{np.max(np.abs(r['rt'] - z0)):.3g}", dict(sig, what="reversible"))
-    if not np.max(np.abs(r["neg"] - z0)) <= 1e-10 * scale:
+    if not np.max(np.abs(r["neg"] - z0)) <= 1e-10 * scale * amp:
         return (f"leapfrog with negated step size is not the inverse: miss {np.max(np.abs(r['neg'] - z0)):.3g}",
                 dict(sig, what="neg_step"))
-    for nm in ("det1", "detn"):
-        if not abs(r[nm] - 1.0) <= 1e-10:
+    for nm, nn in (("det1", "j1_norm"), ("detn", "jn_norm")):
+        # the determinant of an ill-conditioned Jacobian is computed with error ~ eps·‖J‖²: condition-aware tolerance
+        if not abs(r[nm] - 1.0) <= 1e-10 * max(1.0, r[nn]) ** 2:
             return (f"leapfrog Jacobian determinant ({'one step' if nm == 'det1' else str(case['n']) + ' steps'}) is "
                     f"{r[nm]!r}, not 1", dict(sig, what="volume"))
     minv = np.array(fll(case["minv"]))
